@@ -4,6 +4,9 @@ use serde::ser::SerializeStruct;
 use serde::{Deserialize, Deserializer, Serialize, Serializer};
 use std::fmt;
 use std::str::FromStr;
+#[cfg(pricelevel_verif)]
+use crate::verif_shim::{AtomicU64, AtomicUsize, Ordering};
+#[cfg(not(pricelevel_verif))]
 use std::sync::atomic::{AtomicU64, AtomicUsize, Ordering};
 use std::time::{SystemTime, UNIX_EPOCH};
 
